@@ -36,6 +36,7 @@ MODULES = {
     'C13': 'harness.c13',
     'C15': 'harness.c15',
     'C16': 'harness.c16',
+    'C17': 'harness.c17',
     'C18': 'harness.c18',
     'C19': 'harness.c19',
 }
@@ -82,6 +83,9 @@ def _jsonable(x):
 def replay(pid, path):
     with open(path) as f:
         r = json.load(f)
+    if r.get('crosshair'):
+        from harness import c17
+        return c17.replay(path)
     mod = importlib.import_module(r['module'])
     fn = getattr(mod, r['function'])
     try:
